@@ -169,6 +169,9 @@ def gaussian_syn_likelihood_ghurye_olkin(ssx, ssy):
         B = -0.5 * (n-d-2) * (d * math.log(n-1) + logdet_sigma)
         C = 0.5 * (n-d-3) * logdet_psi
         loglik = -0.5*d*math.log(2*math.pi) + A + B + C
+        # the estimator is zero unless psi is positive definite
+        if not np.all(np.linalg.eigvalsh(psi) > 0):
+            loglik = -math.inf
     except np.linalg.LinAlgError:
         logger.warning('Unable to compute logpdf due to poor sample cov.')
         loglik = -math.inf
